@@ -120,14 +120,20 @@ func importDirect(ctx context.Context, ctrl ledgercontroller.Controller, logs []
 // runAtomicBulk: what Bulker.Run does for an atomic bulk - BeginTX on the facade, the elements on the controller it returns,
 // Commit (Rollback at the first failing element) - in the calling goroutine (the Bulker runs the elements on a worker pool)
 func runAtomicBulk(ctx context.Context, ctrl ledgercontroller.Controller, o COp) (out string) {
+	out, _ = runAtomicBulkIDs(ctx, ctrl, o)
+	return out
+}
+
+// runAtomicBulkIDs also returns the log ids of the elements (nil unless the bulk committed)
+func runAtomicBulkIDs(ctx context.Context, ctrl ledgercontroller.Controller, o COp) (out string, ids []int64) {
 	defer func() {
 		if r := recover(); r != nil {
-			out = L("bulk_panic", Q(fmt.Sprint(r)))
+			out, ids = L("bulk_panic", Q(fmt.Sprint(r))), nil
 		}
 	}()
 	tx, _, err := ctrl.BeginTX(ctx, nil)
 	if err != nil {
-		return L("bulk_err", "begin", Q(classify(err)))
+		return L("bulk_err", "begin", Q(classify(err))), nil
 	}
 	var rs []string
 	for k := 1; k <= int(o.Amt); k++ {
@@ -135,13 +141,14 @@ func runAtomicBulk(ctx context.Context, ctrl ledgercontroller.Controller, o COp)
 		rs = append(rs, r.sx())
 		if r.Class != "none" || r.Panic != "" {
 			_ = tx.Rollback(ctx)
-			return L(append([]string{"bulk_rolled_back"}, rs...)...)
+			return L(append([]string{"bulk_rolled_back"}, rs...)...), nil
 		}
+		ids = append(ids, r.LogID)
 	}
 	if err := tx.Commit(ctx); err != nil {
-		return L("bulk_err", "commit", Q(classify(err)))
+		return L("bulk_err", "commit", Q(classify(err))), nil
 	}
-	return L(append([]string{"bulk"}, rs...)...)
+	return L(append([]string{"bulk"}, rs...)...), ids
 }
 
 // ---------------------------------------------------------------- scenarios
@@ -170,6 +177,7 @@ var scenarioNames = []string{
 	"c14-ref2", "c14-ref3", "c14-refworld",
 	"c15-rev2", "c15-rev3", "c15-revforce",
 	"c12-import-vs-write", "c12-import-vs-bulk", "c12-import-vs-two", "c12-import-shifted", "c12-import-vs-failing",
+	"c09-bulk-vs-write", "c09-bulk-vs-bulk", "c09-bulk-fails",
 }
 
 // buildScenario: fresh = never-used (account, asset) pair for the contended source (the account itself exists: it holds EUR)
@@ -292,6 +300,32 @@ func buildScenario(name string, fresh, hash bool) *Scenario {
 			s.Writers[i].Inh = i
 		}
 		return s
+	case "c09-bulk-vs-write", "c09-bulk-vs-bulk", "c09-bulk-fails":
+		// C09 at the advisory-lock boundary with ATOMIC BULKS (one SQL transaction inserting several logs, Controller.BeginTX) on a
+		// ledger that is in use (the prefix wrote to it), HASH_LOGS = SYNC.  The racing requests touch DISJOINT accounts and
+		// (account, asset) rows - carol -> bob and alice -> dave, nobody touches world - so that the only thing they share is the
+		// log chain: lock, sequence, the trigger's read of the previous log.  A bulk COp: Amt elements of 10 USD Src -> Dst, element
+		// number Allow (1-based; 0 = none) fails for lack of funds (the scenario funds Src accordingly) and the bulk rolls back.
+		s.Hash = true
+		bulk := func(src, dst string, n, failAt int64) COp {
+			return COp{Kind: "bulk", Mode: "plain", Src: src, Dst: dst, Asset: "USD", Amt: n, Allow: failAt}
+		}
+		switch name {
+		case "c09-bulk-vs-write":
+			s.Prefix = append(s.Prefix, fund("carol", "USD", 100), fund("alice", "USD", 100))
+			s.Writers = []COp{bulk("carol", "bob", 2, 0), spend("plain", "alice", "dave", 10, 0)}
+		case "c09-bulk-vs-bulk":
+			s.Prefix = append(s.Prefix, fund("carol", "USD", 100), fund("alice", "USD", 100))
+			s.Writers = []COp{bulk("carol", "bob", 2, 0), bulk("alice", "dave", 2, 0)}
+		case "c09-bulk-fails": // the bulk inserts one log, then its second element fails: ROLLBACK while the write may be waiting for the lock
+			s.Prefix = append(s.Prefix, fund("carol", "USD", 10), fund("alice", "USD", 100))
+			s.Writers = []COp{bulk("carol", "bob", 2, 2), spend("plain", "alice", "dave", 10, 0)}
+		}
+		for i := range s.Writers {
+			s.Writers[i].IK = fmt.Sprintf("w%d", i)
+			s.Writers[i].Inh = i
+		}
+		return s
 	case "c15-rev2", "c15-rev3", "c15-revforce":
 		s.Prefix = append(s.Prefix, fund("alice", "USD", 100), fund("bob", "USD", 100), spend("plain", "alice", "bob", 100, 0))
 		s.Target = int64(len(s.Prefix))
@@ -333,6 +367,27 @@ func (s *Scenario) caseSx(sch []int) string {
 	return L("sched", s.headSx(), L("prefix", copsSx(s.Prefix)), L("writers", copsSx(s.Writers)), L(append([]string{"sch"}, ss...)...))
 }
 
+// chainLabel: the store calls that are steps of the lock-protocol model Ledger/ConcChain.v
+func chainLabel(l string) bool { return l == "adv" || l == "log" || l == "commit" || l == "rollback" }
+
+// caseSx of a run.  C09 scenarios are compared with the lock-protocol model (modelrun schedchain), whose steps are only the
+// statements that touch the chain: the case carries, next to the full schedule (sch: what -replay follows), its projection on
+// those statements (psch: one entry per slice whose statement was adv / log / commit / rollback).  Slices and events correspond
+// one to one.  The head atom differs so that bin/check --replay picks the right tie.
+func (r *SchedRun) caseSx() string {
+	cs := r.Scn.caseSx(r.Sched)
+	if r.Scn.Prop != "C09" {
+		return cs
+	}
+	ps := []string{"psch"}
+	for i, e := range r.Events {
+		if i < len(r.Sched) && chainLabel(e.label) {
+			ps = append(ps, strconv.Itoa(r.Sched[i]))
+		}
+	}
+	return "(schedchain" + cs[len("(sched"):len(cs)-1] + " " + L(ps...) + ")"
+}
+
 // ---------------------------------------------------------------- the cooperative scheduler
 const (
 	wNew = iota
@@ -356,6 +411,7 @@ type schedWorker struct {
 	advSess   *pgsem.Session // blocked on an advisory key whose holder has no open transaction
 	ctrl      ledgercontroller.Controller
 	resSx     string // result of an import / bulk request
+	bulkIDs   []int64
 }
 
 type schedEvent struct {
@@ -401,7 +457,7 @@ func stmtLabel(sql string) string {
 	q := strings.ToLower(strings.Join(strings.Fields(sql), " "))
 	has := func(s string) bool { return strings.Contains(q, s) }
 	switch {
-	case q == "begin" || strings.HasPrefix(q, "savepoint") || strings.HasPrefix(q, "release savepoint") || strings.HasPrefix(q, "rollback to"):
+	case q == "begin" || strings.HasPrefix(q, "begin ") || strings.HasPrefix(q, "start transaction") || strings.HasPrefix(q, "savepoint") || strings.HasPrefix(q, "release savepoint") || strings.HasPrefix(q, "rollback to"):
 		return ""
 	case q == "commit":
 		return "commit"
@@ -604,6 +660,8 @@ type SchedRun struct {
 	Stuck    bool
 	Cut      bool
 	ResSx    []string // results of import / bulk requests ("" for plain writes)
+	BulkIDs  [][]int64   // log ids of the elements of a committed bulk
+	Links    [][2]string // C09: (log id, id of the log its stored hash chains from: "0" = none, "?" = no stored log)
 	State    string   // C12: state of the ledger row at the end
 	Viol     []schedViolation
 	Waits    int
@@ -714,7 +772,7 @@ func runSchedule(scn *Scenario, pol schedPolicy) *SchedRun {
 				}
 				w.resSx = L("imp", importClass(ierr))
 			case "bulk":
-				w.resSx = runAtomicBulk(ctx, w.ctrl, w.op)
+				w.resSx, w.bulkIDs = runAtomicBulkIDs(ctx, w.ctrl, w.op)
 			default:
 				w.res = runSchedOp(ctx, w.ctrl, w.op)
 			}
@@ -802,6 +860,7 @@ func runSchedule(scn *Scenario, pol schedPolicy) *SchedRun {
 	for _, w := range cs.workers {
 		run.Res = append(run.Res, w.res)
 		run.ResSx = append(run.ResSx, w.resSx)
+		run.BulkIDs = append(run.BulkIDs, w.bulkIDs)
 	}
 	if !cs.stuck && !cs.cut && scn.Prop == "C12" {
 		for _, r := range rawRows(st.PG, `select state from "_system".ledgers where name = 'l1'`) {
@@ -828,6 +887,11 @@ func runSchedule(scn *Scenario, pol schedPolicy) *SchedRun {
 			for _, m := range monC09Rows(rows) {
 				run.Viol = append(run.Viol, schedViolation{"C09", m + " [sched]"})
 			}
+			var msgs []string
+			run.Links, msgs = chainLinks(rows)
+			for _, m := range msgs {
+				run.Viol = append(run.Viol, schedViolation{"C09", m + " [sched]"})
+			}
 		}
 		sess.Close()
 	}
@@ -835,6 +899,83 @@ func runSchedule(scn *Scenario, pol schedPolicy) *SchedRun {
 		st.SQL.Close()
 	}
 	return run
+}
+
+// chainLinks recomputes, from the raw rows alone, which stored log every stored hash chains from (the trigger's rule applied to
+// every candidate predecessor, and to "no predecessor").  Monitor, independent of any model: no two logs share a predecessor.
+func chainLinks(rows []hRow) (links [][2]string, msgs []string) {
+	succ := map[string][]int64{}
+	for _, row := range rows {
+		from := "?"
+		if ref, ok := refTriggerHash(nil, false, row); ok && bytes.Equal(ref, row.Hash) {
+			from = "0"
+		}
+		for _, other := range rows {
+			if other.ID == row.ID || len(other.Hash) == 0 {
+				continue
+			}
+			if ref, ok := refTriggerHash(other.Hash, true, row); ok && bytes.Equal(ref, row.Hash) {
+				from = fmt.Sprint(other.ID)
+			}
+		}
+		links = append(links, [2]string{fmt.Sprint(row.ID), from})
+		if from != "?" {
+			succ[from] = append(succ[from], row.ID)
+		}
+	}
+	var keys []string
+	for k := range succ {
+		keys = append(keys, k)
+	}
+	sort.Strings(keys)
+	for _, k := range keys {
+		if len(succ[k]) > 1 {
+			what := "log " + k
+			if k == "0" {
+				what = "no predecessor (as first logs)"
+			}
+			msgs = append(msgs, fmt.Sprintf("[c09-shared-predecessor] logs %v all chain from %s: the chain forks", succ[k], what))
+		}
+	}
+	return links, msgs
+}
+
+// chainOutcomeSx: what modelrun schedchain prints for a C09 scenario
+func (r *SchedRun) chainOutcomeSx() string {
+	var res, com, logs, evs []string
+	for i, x := range r.Res {
+		switch {
+		case r.Scn.Writers[i].Kind == "bulk" && strings.HasPrefix(r.ResSx[i], "(bulk_rolled_back"):
+			res = append(res, L("rolled_back"))
+		case r.Scn.Writers[i].Kind == "bulk" && strings.HasPrefix(r.ResSx[i], "(bulk "):
+			ids := []string{"ok"}
+			for _, id := range r.BulkIDs[i] {
+				ids = append(ids, fmt.Sprint(id))
+			}
+			res = append(res, L(ids...))
+		case r.Scn.Writers[i].Kind == "bulk":
+			res = append(res, r.ResSx[i])
+		case x.Class == "none" && x.Panic == "" && !x.Hit:
+			res = append(res, L("ok", fmt.Sprint(x.LogID)))
+		case x.Class == "insufficient_funds":
+			res = append(res, L("rolled_back"))
+		default:
+			res = append(res, x.sx())
+		}
+	}
+	for _, c := range r.Commits {
+		com = append(com, strconv.Itoa(c))
+	}
+	for _, l := range r.Links {
+		logs = append(logs, L(l[0], l[1]))
+	}
+	for _, e := range r.Events {
+		if chainLabel(e.label) {
+			evs = append(evs, L(strconv.Itoa(e.w), e.label, e.status))
+		}
+	}
+	h := func(head string, xs []string) string { return L(append([]string{head}, xs...)...) }
+	return L("chain", h("res", res), h("commits", com), h("logs", logs), h("ev", evs))
 }
 
 func (r *SchedRun) outcomeSx() string {
@@ -864,6 +1005,9 @@ func (r *SchedRun) outcomeSx() string {
 		evs = append(evs, L(strconv.Itoa(e.w), e.label, e.status))
 	}
 	h := func(head string, xs []string) string { return L(append([]string{head}, xs...)...) }
+	if r.Scn.Prop == "C09" {
+		return r.chainOutcomeSx()
+	}
 	if r.Scn.Prop == "C12" {
 		for i, x := range r.ResSx {
 			if x != "" {
@@ -1223,7 +1367,7 @@ func cmdSched(args []string) int {
 	outcomes := map[string]map[string]bool{}
 	finish := func(r *SchedRun) {
 		r.monitors()
-		cs := r.Scn.caseSx(r.Sched)
+		cs := r.caseSx()
 		out.Case(cs, r.outcomeSx())
 		out.Stats["cases"]++
 		out.Stats["schedules_"+r.Scn.Name]++
@@ -1291,6 +1435,12 @@ func cmdSched(args []string) int {
 				continue // the never-used pair only matters where a bounded source is contended
 			}
 			for _, hash := range []bool{true, false} {
+				if !hash && strings.HasPrefix(n, "c09-") {
+					continue // no chain without HASH_LOGS = SYNC
+				}
+				if h := f.Extra["hash"]; h == "sync" && !hash || h == "off" && hash {
+					continue // -hash sync|off: one HASH_LOGS configuration only (C09 has nothing to check without the chain)
+				}
 				scn := buildScenario(n, fresh, hash)
 				runs, complete := explore(scn, maxPre, f.N, finish)
 				out.Stats["runs"] += runs
